@@ -8,50 +8,6 @@ From Kardia Require Import Generated.C19Facts.
 Import ListNotations.
 Local Open Scope Z_scope.
 
-(** Full C19_accept_sound also asks for "same validator index" (oracle class
-    accepted-unsound:index). *)
-Definition accept_sound_with_index : Prop :=
-  forall cid n e p',
-    Inv cid n -> peer_evidence (n_pool n) (n_chain n) e = (p', ROk) ->
-    is_pending (n_pool n) e = false -> is_committed (n_pool n) e = false ->
-    sound cid (n_chain n) e /\ v_idx (e_a e) = v_idx (e_b e).
-
-Lemma accept_sound_with_index_refuted : ~ accept_sound_with_index.
-Proof.
-  intros H. specialize (H 1%N node0 evReplay (fst (peer_evidence (n_pool node0) (n_chain node0) evReplay)) node0_inv).
-  assert (E : peer_evidence (n_pool node0) (n_chain node0) evReplay =
-              (fst (peer_evidence (n_pool node0) (n_chain node0) evReplay), ROk)) by (vm_compute; reflexivity).
-  destruct (H E) as [_ Hi]; try (vm_compute; reflexivity).
-  vm_compute in Hi. discriminate.
-Qed.
-
-(** "nobody can be held accountable by replayed evidence": two pieces of evidence made of the
-    same two signed votes are never both committed (oracle class double-sign-punished-twice). *)
-Definition same_votes (e1 e2 : evidence) : Prop :=
-  v_sig (e_a e1) = v_sig (e_a e2) /\ v_sig (e_b e1) = v_sig (e_b e2).
-
-Definition once_per_double_sign : Prop :=
-  forall cid n ops e1 e2,
-    Inv cid n -> ops_ok cid n ops -> no_raw_update ops ->
-    In (ekey e1) (commit_log n ops) -> In (ekey e2) (commit_log n ops) ->
-    same_votes e1 e2 -> ekey e1 = ekey e2.
-
-Lemma history_replay_ok : ops_ok 1 node0 history_replay.
-Proof. unfold history_replay. cbn [ops_ok op_ok]. repeat split; try (vm_compute; auto; fail). Qed.
-
-Lemma once_per_double_sign_refuted : ~ once_per_double_sign.
-Proof.
-  intros H.
-  assert (E : ekey evOK = ekey evReplay).
-  { apply (H 1%N node0 history_replay evOK evReplay node0_inv history_replay_ok).
-    - intros st es Hi. unfold history_replay in Hi. cbn in Hi.
-      repeat (destruct Hi as [Hi|Hi]; [discriminate|]). exact Hi.
-    - vm_compute. auto.
-    - vm_compute. auto.
-    - split; reflexivity. }
-  vm_compute in E. discriminate.
-Qed.
-
 (** what C19_generated_accepted needs from consensus: the evidence tryAddVote builds from two
     conflicting votes of a member of the set of their height is accepted by a node that has
     the block of that height and for which the evidence has not expired (oracle class
@@ -60,7 +16,7 @@ Definition consensus_generates_acceptable : Prop :=
   forall cs c p hash size va vb e,
     conflicting_votes (st_chain (p_state p)) va vb ->
     vals_at c (Z.of_N (v_height va)) = Some (cs_vals cs) ->
-    find_val (v_addr va) (cs_vals cs) <> None ->
+    (exists idx val, find_idx (v_addr va) (cs_vals cs) 0 = Some (idx, val) /\ v_idx va = idx /\ v_idx vb = idx) ->
     (exists ts, block_time c (Z.of_N (v_height va)) = Some ts /\
                 ~ expired (p_state p) (Z.of_N (v_height va)) ts) ->
     try_add_vote_gen cs hash size va vb = GEvidence e ->
@@ -74,47 +30,44 @@ Proof.
   { apply (H csA chain2 poolB 77%N 380 voteX voteY).
     - exact votes_conflict.
     - reflexivity.
-    - vm_compute. discriminate.
+    - exists 3%N, {| val_addr := 4; val_power := 10 |}. repeat split; reflexivity.
     - exists 103. split; [reflexivity|]. unfold expired. vm_compute. intros [A _]. discriminate.
     - reflexivity. }
   vm_compute in E. discriminate.
 Qed.
 
-(** "is proposed until committed" with the default parameters (oracle class
-    pending-not-proposed) *)
-Definition pending_is_proposed_by_default : Prop :=
-  forall p, p_pending p <> [] -> p_size p <> 0 -> forallb validate_basic (p_pending p) = true ->
-            fst (pending_evidence p default_proposal_pending_cap) <> [].
-
-Lemma pending_is_proposed_by_default_refuted : ~ pending_is_proposed_by_default.
+(** "is proposed": with a byte cap that admits the first pending entry, PendingEvidence
+    returns at least that entry (the default cap is now the 104857-byte budget) *)
+Lemma list_loop_prefix : forall l mb acc x y,
+  forallb validate_basic l = true ->
+  exists l', fst (fst (list_loop l mb acc x y)) = rev acc ++ l'.
 Proof.
-  intros H.
-  apply (H (fst (peer_evidence (empty_pool (st_at 2 103)) chain2 evOK))); vm_compute; try reflexivity; discriminate.
+  induction l as [|z l IH]; intros mb acc x y Hb; cbn [list_loop].
+  - exists []. cbn [fst]. rewrite app_nil_r. reflexivity.
+  - cbn [forallb] in Hb. apply andb_true_iff in Hb. destruct Hb as [Hz Hl].
+    destruct (negb (Z.eqb mb (-1)) && Z.ltb mb (wrap64 (x + 1 + e_size z + sov (e_size z)))).
+    + exists []. cbn [fst]. rewrite app_nil_r. reflexivity.
+    + rewrite Hz. cbn [negb].
+      destruct (IH mb (z :: acc) (wrap64 (x + 1 + e_size z + sov (e_size z)))
+                   (wrap64 (x + 1 + e_size z + sov (e_size z))) Hl) as [l' H].
+      exists (z :: l'). rewrite H. cbn [rev]. rewrite <- app_assoc. reflexivity.
 Qed.
 
-(** all correct nodes agree on whether a block's evidence is acceptable (oracle classes
-    block-validity-disagreement, accepted-expired-pending) *)
-Definition block_validity_agreed : Prop :=
-  forall cid c p q es,
-    pool_inv cid c p -> pool_inv cid c q -> p_state p = p_state q -> p_committed p = p_committed q ->
-    snd (check_evidence p c es) = snd (check_evidence q c es).
-
-Lemma block_validity_agreed_refuted : ~ block_validity_agreed.
+Lemma pending_first_proposed p e t cap :
+  p_pending p = e :: t -> p_size p <> 0 -> forallb validate_basic (p_pending p) = true ->
+  wrap64 (0 + 1 + e_size e + sov (e_size e)) <= cap ->
+  exists l, fst (pending_evidence p cap) = e :: l.
 Proof.
-  intros H.
-  set (holder := fst (update (fst (update (fst (peer_evidence (empty_pool (st_tiny 2 103)) chain5 evOK))
-                                         (st_tiny 3 120) [])) (st_tiny 4 140) [])).
-  set (fresh := empty_pool (st_tiny 4 140)).
-  assert (E : snd (check_evidence holder chain5 [evOK]) = snd (check_evidence fresh chain5 [evOK])).
-  { apply (H 1%N).
-    - split; [reflexivity|]. split.
-      + intros e He. vm_compute in He. destruct He as [<-|[]].
-        split; [|reflexivity]. unfold double_sign. repeat (split; [vm_compute; reflexivity|]).
-        exists vals4, {| val_addr := 4; val_power := 10 |}.
-        repeat split; try (vm_compute; reflexivity). cbn. auto.
-      + intros e He. vm_compute in He. destruct He as [<-|[]]. reflexivity.
-    - split; [reflexivity|]. split; intros e [].
-    - reflexivity.
-    - reflexivity. }
-  vm_compute in E. discriminate.
+  intros Hp Hs Hb Hc. unfold pending_evidence. apply Z.eqb_neq in Hs. rewrite Hs.
+  unfold list_evidence.
+  destruct (list_loop_prefix (p_pending p) cap [] 0 0 Hb) as [l' H].
+  destruct (list_loop (p_pending p) cap [] 0 0) as [[l0 s0] b0] eqn:E. cbn [fst] in *.
+  rewrite Hp in E. cbn [list_loop] in E.
+  assert (Hlt : Z.ltb cap (wrap64 (0 + 1 + e_size e + sov (e_size e))) = false) by (apply Z.ltb_ge; lia).
+  rewrite Hlt, andb_false_r in E.
+  rewrite Hp in Hb. cbn [forallb] in Hb. apply andb_true_iff in Hb. destruct Hb as [He Ht].
+  rewrite He in E. cbn [negb] in E.
+  destruct (list_loop_prefix t cap [e] (wrap64 (0 + 1 + e_size e + sov (e_size e)))
+                             (wrap64 (0 + 1 + e_size e + sov (e_size e))) Ht) as [l2 H2].
+  rewrite E in H2. cbn [fst rev app] in H2. exists l2. exact H2.
 Qed.
